@@ -50,6 +50,7 @@ Proof. unfold proj. rewrite filter_app. cbn [filter]. reflexivity. Qed.
 (** * The invariant *)
 
 Definition expected_log (t : N) (th : thread) : list entry :=
+  if th_crashed th then [] else
   match th_pc th with
   | P1 => []
   | P2 | P3 => [Connect (th_name th) (th_sess th) t]
@@ -103,13 +104,13 @@ Qed.
 Lemma inv_step s a s' : inv s -> step s a = Some s' -> inv s'.
 Proof.
   intros Hi Hs. pose proof Hi as [Hr Hn Hl].
-  destruct a as [t n|t sv|t|t|t|t|n]; cbn [step] in Hs.
+  destruct a as [t n|t sv|t|t|t|t|n|t n|t]; cbn [step] in Hs.
   - (* AUpgrade *)
     destruct (get t (threads s)) eqn:Ht; [discriminate|]. injection Hs as <-.
     split; cbn [threads reg ups log].
     + intros n0 t0 Hg. rewrite get_set in Hg. destruct (n0 =? n) eqn:E.
       * apply N.eqb_eq in E. subst n0. injection Hg as <-.
-        exists (mkThread n P1 0%Z). rewrite get_set_same. cbn [get th_name th_pc live].
+        exists (mkThread n P1 0%Z false). rewrite get_set_same. cbn [get th_name th_pc live].
         rewrite N.eqb_refl. repeat split.
       * destruct (Hr n0 t0 Hg) as (th0 & G1 & G2 & G3 & G4).
         assert (t0 <> t) by (intros ->; congruence).
@@ -126,28 +127,31 @@ Proof.
   - (* AConnect *)
     destruct (get t (threads s)) as [th|] eqn:Ht; [|discriminate].
     destruct (pc_eqb (th_pc th) P1) eqn:Ep; [|discriminate]. apply pc_eqb_eq in Ep.
+    destruct (th_crashed th) eqn:Ec; [discriminate|]. cbn [negb andb] in Hs.
     injection Hs as <-.
     apply (inv_move s t th); try assumption; cbn [th_name th_pc]; try reflexivity.
     + now rewrite Ep.
     + rewrite proj_snoc. cbn [entry_thread]. rewrite N.eqb_refl, Hl, Ht.
-      unfold expected_log. rewrite Ep. reflexivity.
+      unfold expected_log; cbn [th_crashed th_pc]; rewrite ?Ec, ?Ep; try (destruct (th_crashed th)); reflexivity.
     + intros t' Hne. rewrite proj_snoc. cbn [entry_thread].
       destruct (t =? t') eqn:E; [apply N.eqb_eq in E; congruence|]. apply app_nil_r.
   - (* AServeEnd *)
     destruct (get t (threads s)) as [th|] eqn:Ht; [|discriminate].
     destruct (pc_eqb (th_pc th) P2) eqn:Ep; [|discriminate]. apply pc_eqb_eq in Ep.
+    destruct (th_crashed th) eqn:Ec; [discriminate|]. cbn [negb andb] in Hs.
     injection Hs as <-. unfold set_pc.
     apply (inv_move s t th); try assumption; cbn [th_name th_pc]; try reflexivity.
     + now rewrite Ep.
-    + rewrite Hl, Ht. unfold expected_log. rewrite Ep. reflexivity.
+    + rewrite Hl, Ht. unfold expected_log; cbn [th_crashed th_pc]; rewrite ?Ec, ?Ep; try (destruct (th_crashed th)); reflexivity.
   - (* ADisconnect *)
     destruct (get t (threads s)) as [th|] eqn:Ht; [|discriminate].
     destruct (pc_eqb (th_pc th) P3) eqn:Ep; [|discriminate]. apply pc_eqb_eq in Ep.
+    destruct (th_crashed th) eqn:Ec; [discriminate|]. cbn [negb andb] in Hs.
     injection Hs as <-.
     apply (inv_move s t th); try assumption; cbn [th_name th_pc]; try reflexivity.
     + now rewrite Ep.
     + rewrite proj_snoc. cbn [entry_thread]. rewrite N.eqb_refl, Hl, Ht.
-      unfold expected_log. rewrite Ep. reflexivity.
+      unfold expected_log; cbn [th_crashed th_pc]; rewrite ?Ec, ?Ep; try (destruct (th_crashed th)); reflexivity.
     + intros t' Hne. rewrite proj_snoc. cbn [entry_thread].
       destruct (t =? t') eqn:E; [apply N.eqb_eq in E; congruence|]. apply app_nil_r.
   - (* AUnmap *)
@@ -187,7 +191,7 @@ Proof.
       * apply N.eqb_neq in E. apply Hkeep; [|assumption]. now apply (Hn t0 th0).
     + intros t0. rewrite get_set. destruct (t0 =? t) eqn:E.
       * apply N.eqb_eq in E. subst t0. rewrite Hl, Ht. unfold expected_log.
-        cbn [th_pc th_name th_sess]. now rewrite Ep.
+        cbn [th_pc th_name th_sess th_crashed]. rewrite Ep. now destruct (th_crashed th).
       * apply Hl.
   - (* AClose *)
     destruct (get t (threads s)) as [th|] eqn:Ht; [|discriminate].
@@ -195,8 +199,17 @@ Proof.
     injection Hs as <-. unfold set_pc.
     apply (inv_move s t th); try assumption; cbn [th_name th_pc]; try reflexivity.
     + now rewrite Ep.
-    + rewrite Hl, Ht. unfold expected_log. rewrite Ep. reflexivity.
+    + rewrite Hl, Ht. unfold expected_log; cbn [th_crashed th_pc]; rewrite ?Ec, ?Ep; try (destruct (th_crashed th)); reflexivity.
   - injection Hs as <-. exact Hi.
+  - injection Hs as <-. exact Hi.
+  - (* ACrash *)
+    destruct (get t (threads s)) as [th|] eqn:Ht; [|discriminate].
+    destruct (pc_eqb (th_pc th) P1) eqn:Ep; [|discriminate]. apply pc_eqb_eq in Ep.
+    injection Hs as <-.
+    apply (inv_move s t th); try assumption; cbn [th_name th_pc]; try reflexivity.
+    + now rewrite Ep.
+    + rewrite Hl, Ht. unfold expected_log. cbn [th_crashed]. rewrite Ep.
+      destruct (th_crashed th); reflexivity.
 Qed.
 
 Lemma inv_exec acts : forall s s', inv s -> exec s acts = Some s' -> inv s'.
@@ -270,11 +283,11 @@ Proof.
 Qed.
 
 Theorem callbacks_pair_finished s t th :
-  reachable s -> get t (threads s) = Some th -> th_pc th = P6 ->
+  reachable s -> get t (threads s) = Some th -> th_pc th = P6 -> th_crashed th = false ->
   proj t (log s) =
     [Connect (th_name th) (th_sess th) t; Disconnect (th_name th) (th_sess th) t].
 Proof.
-  intros H Ht Hp. rewrite (callbacks_pair s t th H Ht). unfold expected_log. now rewrite Hp.
+  intros H Ht Hp Hc. rewrite (callbacks_pair s t th H Ht). unfold expected_log. now rewrite Hc, Hp.
 Qed.
 
 (** No notification without a connection. *)
@@ -297,10 +310,39 @@ Definition next_action (t : N) (th : thread) : option action :=
   end.
 
 Theorem next_action_enabled s t th a :
-  get t (threads s) = Some th -> next_action t th = Some a ->
+  get t (threads s) = Some th -> th_crashed th = false -> next_action t th = Some a ->
   exists s', step s a = Some s'.
 Proof.
-  intros Ht Ha. unfold next_action in Ha.
-  destruct (th_pc th) eqn:Ep; inversion Ha; subst; cbn [step]; rewrite Ht, Ep; cbn [pc_eqb];
+  intros Ht Hc Ha. unfold next_action in Ha.
+  destruct (th_pc th) eqn:Ep; inversion Ha; subst; cbn [step]; rewrite Ht, Ep, ?Hc; cbn [pc_eqb negb andb];
     eexists; reflexivity.
 Qed.
+
+(** A connection whose OnConnect callback panicked produces no notification
+    at all, runs its deferred unmap and Close like any other, and is not
+    left registered (by [ended_not_registered]). *)
+Theorem crashed_is_silent s t th :
+  reachable s -> get t (threads s) = Some th -> th_crashed th = true ->
+  proj t (log s) = [].
+Proof.
+  intros H Ht Hc. rewrite (callbacks_pair s t th H Ht). unfold expected_log. now rewrite Hc.
+Qed.
+
+Theorem crashed_still_unmaps s t th :
+  get t (threads s) = Some th -> th_pc th = P1 ->
+  exists s1 s2 s3, step s (ACrash t) = Some s1 /\ step s1 (AUnmap t) = Some s2 /\
+                   step s2 (AClose t) = Some s3 /\ lookup_name s3 (th_name th) <> Some t.
+Proof.
+  intros Ht Hp. cbn [step]. rewrite Ht, Hp. cbn [pc_eqb]. eexists. eexists. eexists.
+  split; [reflexivity|]. cbn [step threads]. rewrite get_set_same. cbn [th_pc pc_eqb th_name].
+  split; [reflexivity|]. cbn [step threads]. rewrite get_set_same. cbn [th_pc pc_eqb].
+  split; [reflexivity|]. unfold lookup_name, set_pc. cbn [reg th_name].
+  destruct (get (th_name th) (reg s)) as [t'|] eqn:Eg; [|congruence].
+  destruct (t' =? t) eqn:Et.
+  - rewrite get_del_same. discriminate.
+  - rewrite Eg. apply N.eqb_neq in Et. congruence.
+Qed.
+
+(** A failed websocket upgrade changes nothing. *)
+Theorem failed_upgrade_is_noop s t n : step s (AUpgradeFail t n) = Some s.
+Proof. reflexivity. Qed.
